@@ -1,6 +1,7 @@
 import GohtVerif.Proofs.Lemmas.SourceMap
 import GohtVerif.Proofs.Lemmas.WriterBounds
 import GohtVerif.Model.Compile
+import GohtVerif.Proofs.Lemmas.LexBounds
 /-! # C16 — the position map is in-bounds and its two directions are mutually inverse
 
 `toTgt`/`toSrc` are `TargetPositionFromSource`/`SourcePositionFromTarget` over the log of runs that
@@ -67,6 +68,16 @@ theorem target_run_in_bounds (g : G) (text s more : GoStr) (hpos : g.pos = posOf
     utf16Len (lastLineOf text) + utf16Len s ≤ utf16Len (lastLineOf text ++ s ++ more) :=
   ⟨(run_ends_at_line_end g text s hpos hvalid hs).1, run_within_final_line text s more hvalid hvalid2⟩
 
--- PLANNED: bounds on the template side (lexer position theorem); multi-line chunks on the generated side
+/-- **Bounds on the template side** — for every well-formed UTF-8 input, every Go-fragment token the lexer
+delivers starts inside the template: its line is one of the template's lines and its column is at most one
+past the UTF-16 length of that line (line feed included).  A corollary of the lexer position theorem. -/
+theorem fragment_start_in_template_bounds (input : GoStr) (hwf : WF (decodeAll input)) :
+    ∀ t ∈ (lexResult input).toks, isFrag t.typ = true →
+      ∃ w, 1 ≤ t.line ∧ (lineLens (decodeAll input))[(t.line - 1).toNat]? = some w ∧ 1 ≤ t.col ∧ t.col - 1 ≤ (w : Int) := by
+  intro t ht hf
+  have hg : Good (decodeAll input) := ⟨runeOK_decodeFuel _ _, encOK_decodeFuel _ _, hwf⟩
+  exact tokAt_in_bounds _ t (run_frag hg _ _ _ [] (tinv_initL input) (fun h => by cases h) rfl (fun t ht => by cases ht) t ht hf)
+
+-- PLANNED: bounds of every later character of a fragment (needs the emitter's use of the token); multi-line chunks on the generated side
 
 end GL.C16
